@@ -255,6 +255,8 @@ class DimBinding(ParamBinding):
             t = ident.get(id(x[0]))
             if kind == "link" and t is not None and w["orig"].get(t) == tgt and w["obj"][t].parent is obj.parent:
                 return 0
+            if kind == "link" and t is None and obj.parent is None and x[1] == "id":
+                return 0  # a component copied alone: the link goes to the private copy of its sibling (RetainState!Hidden)
             return "?link to %r (object %s)" % (x[0], t)
         if isinstance(x, float):
             if kind == "num" and x == num:
@@ -1439,12 +1441,14 @@ class ReactorRecorder:
                     return None
                 r = force.get("o", roots[0]) if force else rng.choice(roots)
                 sub = sorted(self.subtree(w, r))
-                lazy = [j for j in sub if w["cls"][j] == "cmp" and O[j].p.volume is None]
-                if lazy:
-                    # volume is a lazily computed parameter: reading it (which writing a database does) stores it
-                    a = {"n": "Havoc", "o": lazy[0], "touched": sub, "call": "getVolume"}
-                    for j in lazy:
-                        O[j].getVolume()
+                # volume is a lazily computed parameter: reading it (which writing a database does) may store it
+                # (None after clearCache, or a derived shape whose block says "must update"); that is its own event
+                before = self.project(w)
+                comps = [j for j in sub if w["cls"][j] == "cmp"]
+                for j in comps:
+                    O[j].getVolume()
+                if comps and self.project(w) != before:
+                    a = {"n": "Havoc", "o": comps[0], "touched": sub, "call": "getVolume"}
                 else:
                     a = {"n": "WriteDb", "r": r}
                     self.db_write(w, r)
